@@ -77,7 +77,10 @@ def judge(fam, ops):
 
 def shrink(fam, ops, kind, budget=150):
     """greedy delta debugging on op lines, keeping the same kind of failure"""
-    cur = list(ops)
+    keep = getattr(fam, "keep_prefix", 0)
+    head, cur = list(ops[:keep]), list(ops[keep:])
+    def jd(f, c):      # always re-attach the fixed prefix
+        return judge(f, head + c)
     tries = 0
     chunk = max(1, len(cur) // 2)
     while chunk >= 1 and tries < budget:
@@ -89,7 +92,7 @@ def shrink(fam, ops, kind, budget=150):
                 i += chunk
                 continue
             tries += 1
-            r = judge(fam, cand)
+            r = jd(fam, cand)
             if r is not None and r["kind"] == kind:
                 cur = cand
                 progressed = True
@@ -100,7 +103,7 @@ def shrink(fam, ops, kind, budget=150):
         chunk = max(1, chunk // 2) if chunk > 1 else (1 if progressed else 0)
         if chunk == 0:
             break
-    return cur
+    return head + cur
 
 
 def batches(cases, n):
